@@ -21,7 +21,9 @@ Queries == << "sum by (a) (m)", "m", "rate(m[3s])", "topk(1, m)", "m + on (a) gr
 \* kinds: ok = plain execution; cancel = executed with a context cancelled beforehand or midway; (failing / fallback
 \* queries are in the basket: index 8 fails with many-to-many, 9 and 10 take the fallback path)
 ExecKinds == {"ok", "ok", "cancel-before", "cancel-mid"}
-Windows == << [start |-> 2, end |-> 2, step |-> 0], [start |-> 1, end |-> 13, step |-> 1], [start |-> 3, end |-> 25, step |-> 2] >>
+\* qlb: per-query lookback delta (promql.QueryOpts), 0 = none given: a query's options must not outlive the query
+Windows == << [start |-> 2, end |-> 2, step |-> 0, qlb |-> 0], [start |-> 1, end |-> 13, step |-> 1, qlb |-> 0], [start |-> 3, end |-> 25, step |-> 2, qlb |-> 0],
+              [start |-> 2, end |-> 14, step |-> 1, qlb |-> 1], [start |-> 4, end |-> 4, step |-> 0, qlb |-> 9] >>
 AppendKinds == {"sample", "series", "stale", "gap"}
 
 VARIABLES hist, results
